@@ -1,6 +1,7 @@
 package main
 
 import (
+	"time"
 	"fmt"
 	"strconv"
 	"strings"
@@ -292,8 +293,61 @@ func runSeparateInstances(c *Ctx, goroutines int, exprs []string, tpls []string)
 	}
 }
 
+// the function table is an input of the evaluation: after the calculator's DEFAULT table was edited (a function replaced by
+// another of the same name, removed, added - the number of entries the same or not), the next evaluation uses the table as it
+// is now, exactly as an evaluation that is handed that table explicitly and as a new calculator with that table
+func propDefaultTableEdits(c *Ctx) {
+	mk := func(name string, k int) functions.IFunction {
+		return functions.NewDelegatedFunction(name, func(p []*variants.Variant, o variants.IVariantOperations) (*variants.Variant, error) {
+			return variants.VariantFromInteger(k), nil
+		})
+	}
+	edits := []struct {
+		name string
+		do   func(t functions.IFunctionCollection)
+	}{
+		{"replace Max (remove, add)", func(t functions.IFunctionCollection) { t.RemoveByName("Max"); t.Add(mk("Max", 100)) }},
+		{"replace Max (add, remove first)", func(t functions.IFunctionCollection) { t.Add(mk("MAX", 100)); t.RemoveByName("max") }},
+		{"remove Max", func(t functions.IFunctionCollection) { t.RemoveByName("Max") }},
+		{"remove Min, add Other", func(t functions.IFunctionCollection) { t.RemoveByName("Min"); t.Add(mk("Other", 7)) }},
+		{"remove entry 0, add Ticks", func(t functions.IFunctionCollection) { t.Remove(0); t.Add(mk("Ticks", 5)) }},
+		{"clear, add Max", func(t functions.IFunctionCollection) { t.Clear(); t.Add(mk("Max", 9)) }},
+	}
+	for _, expr := range []string{"Max(1, 2) * 2", "Max(1, 2) + Min(3, 4)", "Sum(Max(1, 2), 1)", "Other() + 1", "Ticks() * 0 + Max(2, 3)"} {
+		for _, e := range edits {
+			op := fmt.Sprintf("deftable %s ! %s", strRunes(expr), strRunes(e.name))
+			c.record(op, true)
+			c.count("default-table-edit")
+			note := ""
+			st := safeCallT(5*time.Second, func() string {
+				calc := calculator.NewExpressionCalculator()
+				calc.SetExpression(expr)
+				calc.Evaluate()
+				e.do(calc.DefaultFunctions())
+				got := outcome(calc.Evaluate())
+				explicit := outcome(calc.EvaluateUsingVariablesAndFunctions(calc.DefaultVariables(), calc.DefaultFunctions()))
+				fresh := calculator.NewExpressionCalculator()
+				e.do(fresh.DefaultFunctions())
+				fresh.SetExpression(expr)
+				want := outcome(fresh.Evaluate())
+				if strings.Contains(expr, "Ticks") && !strings.Contains(e.name, "Ticks") && !strings.Contains(e.name, "clear") {
+					return "" // the clock: not comparable
+				}
+				if got != want || explicit != want {
+					note = fmt.Sprintf("%q after the default function table was edited (%s): Evaluate() gives %s, with the table passed explicitly %s; a new calculator with that table gives %s", expr, e.name, got, explicit, want)
+				}
+				return ""
+			})
+			if st != "" || note != "" {
+				c.fail(Failure{Kind: "oracle", Op: op, Impl: st, Note: note})
+			}
+		}
+	}
+}
+
 func propC19(c *Ctx) {
 	propScaleFunctionTables(c)
+	propDefaultTableEdits(c)
 	g := newExGen(c)
 	g.funcs = []string{"Max", "Min", "Sum", "If", "Array", "Abs", "Choose", "Contains", "Ceil", "Floor", "Round", "Trunc", "Sqrt", "Exp", "Ceiling", "Truncate", "Sin", "Log", "Empty"}
 	n := 300
@@ -342,6 +396,10 @@ func propC19(c *Ctx) {
 
 // pure <g> <expr> ; {binds} {binds} …      tpure <g> <template> ; {vars} {vars} …
 func replayC19(c *Ctx, op string) {
+	if strings.HasPrefix(op, "deftable ") {
+		propDefaultTableEdits(c)
+		return
+	}
 	f := strings.Fields(op)
 	if len(f) < 3 || (f[0] != "pure" && f[0] != "tpure") {
 		return
